@@ -37,6 +37,7 @@ Variable find : nat -> nat -> target.
 Variable codec_ok : N -> bool.
 Variable decodable : N -> nat -> bool.
 Variable handler : nat -> nat -> nat -> hres.
+Variable hmeta : nat -> nat -> nat -> list (nat * nat).
 
 Definition auth_ok (c : icfg) (t : token) : bool :=
   negb (ic_auth c) || match t with TokRight => true | _ => false end.
@@ -51,7 +52,7 @@ Definition handle_with_precall (c : icfg) (q : sreq) : sresp * list invocation :
     if negb (codec_ok (q_ser q)) then (err_resp q (XNoCodec (q_ser q)), [])
     else if negb (decodable (q_ser q) (q_args q)) then (err_resp q (XDecode (q_ser q) (q_args q)), [])
     else if ic_precall c then (err_resp q (XExact 0), [])            (* the plugin's own error text *)
-    else handle_reflected codec_ok decodable handler q
+    else handle_reflected codec_ok decodable handler hmeta q
   end.
 
 Definition of_resp (r : sresp) : ioutcome :=
@@ -68,7 +69,7 @@ Definition native (c : icfg) (rq : irq) : ires :=
   else
     match find (q_path q) (q_meth q) with
     | TRouter =>
-      let '(frames, inv) := process find codec_ok decodable handler q in
+      let '(frames, inv) := process find codec_ok decodable handler hmeta q in
       mkIRes (match frames with r :: _ => of_resp r | [] => INothing end) inv false
     | _ =>
       let '(r, inv) := handle_with_precall c q in
